@@ -28,7 +28,8 @@ impl<'a> MaximalBuf<'a> {
 //%fn crates/proto/src/serialize/binary/encoder.rs :: impl<'a> MaximalBuf<'a> :: new
 //%contract
             requires old(buffer)@.len() <= max_size
-            ensures r.bytes() == old(buffer)@, r.max() == max_size, r.wf()
+            ensures r.bytes() == old(buffer)@, r.max() == max_size, r.wf(),
+                *final(r.buffer) == *final(buffer),     // the struct holds THIS reference: what is written through it is what the caller's Vec ends up with
 //%end
 
 //%fn crates/proto/src/serialize/binary/encoder.rs :: impl<'a> MaximalBuf<'a> :: set_max_size
@@ -51,7 +52,7 @@ impl<'a> MaximalBuf<'a> {
                 }
 //%sub1 "debug_assert!(offset <= self.buffer.len());" => "assert(offset <= self.buffer@.len()); proof { axiom_slice_len_isize(data); }" # R-ann: the debug_assert becomes a proof obligation (discharged from the precondition)
 //%sub1 "self.buffer.extend(data);" => "self.buffer.extend_from_slice(data);" # R-shim: Extend<&u8> for Vec<u8> == extend_from_slice (not nameable in vstd)
-//%sub1 "self.buffer[offset..end].copy_from_slice(data);" => "vp_copy_into(self.buffer, offset, end, data);" # R-shim
+//%sub "self.buffer[offset..end].copy_from_slice(data);" => "vp_copy_into(self.buffer, offset, end, data);" # R-shim
 //%mutant limit_off_by_one "offset + data.len() > self.max_size" => "offset + data.len() > self.max_size + 1"
 //%end
 
